@@ -301,10 +301,15 @@ package lib
 //@   ensures @C09 @C02: forall k string :: k in result ==> k in r.decoys[ipString(darkDecoyAddr)] && r.decoys[ipString(darkDecoyAddr)][k].Valid && result[k] == r.decoys[ipString(darkDecoyAddr)][k]
 //@   ensures @C09: !held(&r.m) && rheld(&r.m) == 0
 //@   ensures @C02: fresh(result)
+// C04 (recognition): ... and it returns EVERY validated registration tracked under that phantom - a registration that
+// is still pending (or was dropped after tracking) next to it does not hide it
+//@   ensures @C04: forall k string :: k in r.decoys[ipString(darkDecoyAddr)] && r.decoys[ipString(darkDecoyAddr)][k] != nil && r.decoys[ipString(darkDecoyAddr)][k].Valid ==> k in regs
+//@   ensures @C04: result == regs
 //@   assigns rheld(&r.m), acq(&r.m)
 //@ loop 1:
 //@   invariant rheld(&r.m) == 1 && !held(&r.m) && fresh(regs) && original == r.decoys[ipString(darkDecoyAddr)]
 //@   invariant forall k string :: k in regs ==> k in original && original[k].Valid && regs[k] == original[k]
+//@   invariant forall k string :: visited(original, k) && original[k] != nil && original[k].Valid ==> k in regs
 //@   modifies mapof(regs)
 
 //@ func (r *RegisteredDecoys) RegistrationExists(d *DecoyRegistration) *DecoyRegistration
@@ -556,10 +561,15 @@ package lib
 //@   requires regManager != nil && regManager.registeredDecoys != nil && !held(&regManager.registeredDecoys.m) && rheld(&regManager.registeredDecoys.m) == 0
 //@   let r := regManager.registeredDecoys
 //@   ensures @C02: forall k string :: k in result ==> k in r.decoys[ipString(phantomAddr)] && r.decoys[ipString(phantomAddr)][k].Valid && result[k] == box(r.decoys[ipString(phantomAddr)][k])
+// C04: nothing the registry returned is lost in the conversion
+//@   ensures @C04: forall k string :: k in r.decoys[ipString(phantomAddr)] && r.decoys[ipString(phantomAddr)][k] != nil && r.decoys[ipString(phantomAddr)][k].Valid ==> k in convertedRegs
+//@   ensures @C04: result == convertedRegs
 //@ loop 1:
 //@   invariant fresh(convertedRegs) && regManager != nil && regManager.registeredDecoys == old(regManager.registeredDecoys)
 //@   invariant forall k string :: k in regs ==> k in r.decoys[ipString(phantomAddr)] && r.decoys[ipString(phantomAddr)][k].Valid && regs[k] == r.decoys[ipString(phantomAddr)][k]
 //@   invariant forall k string :: k in convertedRegs ==> k in regs && convertedRegs[k] == box(regs[k])
+//@   invariant forall k string :: visited(regs, k) ==> k in convertedRegs
+//@   invariant forall k string :: k in r.decoys[ipString(phantomAddr)] && r.decoys[ipString(phantomAddr)][k] != nil && r.decoys[ipString(phantomAddr)][k].Valid ==> k in regs
 //@   modifies mapof(convertedRegs)
 
 // ---------------- what the connection handler (cmd/application) relies on ----------------
